@@ -366,7 +366,10 @@ pub fn counter_probe(load_val: f64, op: Operation, value_kind: usize, on_b: bool
             0 => Counter::new(o),
             1 => Counter::new_dist(o, u(0.0, 2.0)),
             2 => Counter::new_copy(o),
-            _ => Counter::new_dist(o, c(2.0)),
+            3 => Counter::new_dist(o, c(2.0)),
+            // copy supersedes dist (documented in counter.rs); only reachable through the public fields or a parsed machine
+            4 => Counter { operation: o, dist: Some(c(2.0)), copy: true },
+            _ => Counter { operation: o, dist: Some(c(0.0)), copy: true },
         }
     };
     let load = (Some(set(load_val)), Some(set(1.0)));
@@ -555,7 +558,7 @@ pub fn p_ctr() -> Vec<(String, Machine)> {
     let mut v = vec![];
     for (li, load) in [0.0, 1.0, 2.0, 1.8446744073709552e19, 1.8446744073709550e19].iter().enumerate() {
         for (oi, op) in [Operation::Increment, Operation::Decrement, Operation::Set].iter().enumerate() {
-            for vk in 0..4 {
+            for vk in 0..6 {
                 for on_b in [false, true] {
                     for zv in 0..4 {
                         v.push((format!("ctr[load{li},op{oi},val{vk},b{on_b},z{zv}]"), counter_probe(*load, *op, vk, on_b, zv)));
